@@ -9,8 +9,10 @@ import time
 VERIF = os.path.dirname(os.path.dirname(os.path.abspath(__file__)))
 REPO = os.environ.get("VERIF_REPO", "/repo")
 GUARD = "E2NIEE_PANDAPOWER_VERIF"
-EVIDENCE_DIR = os.path.join(VERIF, "evidence")
-REPLAY_DIR = os.path.join(VERIF, "replay")
+# VERIF_OUT redirects evidence/replay output (used when the checks are pointed at a mutated scratch worktree via VERIF_REPO)
+_OUT = os.environ.get("VERIF_OUT", VERIF)
+EVIDENCE_DIR = os.path.join(_OUT, "evidence")
+REPLAY_DIR = os.path.join(_OUT, "replay")
 FINDINGS = os.path.join(VERIF, "known_findings.jsonl")
 
 
@@ -69,8 +71,11 @@ def digest(obj):
 # ---- findings / verdicts -------------------------------------------------------------------------
 def load_findings(prop):
     known, fixed = {}, {}
-    if os.path.exists(FINDINGS):
-        for line in open(FINDINGS):
+    files = [FINDINGS] + [f for f in os.environ.get("VERIF_EXTRA_FINDINGS", "").split(":") if f]   # extra: development only
+    for fn in files:
+        if not os.path.exists(fn):
+            continue
+        for line in open(fn):
             line = line.strip()
             if not line:
                 continue
